@@ -81,6 +81,15 @@ def run(ctx, replay):
             if rng.random() < 0.15 and not any(stp["script"].get(x) for x in ("hijack", "rawmap", "early", "tryhijack")):
                 stp["script"] = dict(stp["script"], flushfirst=True, status=0, flush=True)
                 stp["via"] = "recorder"
+        # balancers with session affinity: whatever affinity cookie the client presents (none, a member's, a stranger's, one that
+        # cannot be decoded) is no reason to intervene while the pool is non-empty - the documented cookie is all that is added
+        COOKIES = ["", "oxysession=http://10.7.0.1:8080/base", "oxysession=http://10.9.9.9:1/", "oxysession=10.0.0.1:8080",
+                   "oxysession=%zz", "oxysession=", "other=1; oxysession=::::", "oxysession=http://[::1"]
+        bal = [x for x in chosen if len(x) <= 3 and any(l["name"] in ("roundrobin", "rebalancer") and l["mode"] == "pass" for l in x)]
+        for s in rng.sample(bal, min(len(bal), 120 if quick else 1200)):
+            s2 = [dict(l, sticky=True) if l["name"] in ("roundrobin", "rebalancer") and l["mode"] == "pass" else dict(l) for l in s]
+            sc = dict(rng.choice(scripts(rng, full=True)), hijack=False)
+            steps.append({"layers": s2, "script": sc, "cookie": rng.choice(COOKIES)})
         for stp in steps:     # the tracer's record sink fails for some of the exchanges that pass through a tracer
             if any(l["name"] == "trace" for l in stp["layers"]) and rng.random() < 0.4:
                 stp["sinkfail"] = True
